@@ -231,6 +231,27 @@ func ResourcePayload(t *rapid.T, ts *TypeSpec, o PayloadOpts) *PayloadCase {
 
 	members := []string{`"id":` + QuoteJSON(p.ID), `"type":` + QuoteJSON(p.TypeName)}
 
+	// A type the schema does not have, or no type member at all (with or
+	// without fields): never acceptable.
+	if o.UnknownPerTen > 0 && rapid.IntRange(0, 19).Draw(t, "badtype") == 0 {
+		switch rapid.IntRange(0, 2).Draw(t, "badtype-form") {
+		case 0:
+			p.TypeName = "zz-no-such-type"
+			members[1] = `"type":"zz-no-such-type"`
+		case 1:
+			p.TypeName = ""
+			members = members[:1]
+		default:
+			p.TypeName = ""
+			members[1] = `"type":""`
+		}
+
+		if rapid.Bool().Draw(t, "badtype-nofields") {
+			attrParts, relParts = nil, nil
+			p.Attrs, p.Rels = map[string]Lit{}, map[string]RelForm{}
+		}
+	}
+
 	if len(attrParts) > 0 || rapid.Bool().Draw(t, "emptyattrs") {
 		p.HasAttrs = true
 		members = append(members, `"attributes":{`+strings.Join(attrParts, ",")+`}`)
